@@ -14,6 +14,7 @@ import CCVerif.Lemmas.SynthCorrectCompose
 import CCVerif.Lemmas.SynthCorrectRank
 import CCVerif.Lemmas.CheckerHomCompose
 import CCVerif.Lemmas.CheckerHomAnalysis
+import CCVerif.Lemmas.CheckerCallView
 /-!
 # C12 — synthesis, merge and equation yield a consistent schema and exact translations
 
@@ -3007,5 +3008,269 @@ example : FullyCorrect (checkerR fun _ => []) (checkerView.store opA) ∧
     simp only [mergedAC, List.mem_cons, List.mem_nil_iff, or_false] at hc
     rcases hc with rfl | rfl | rfl | rfl <;>
       exact ⟨by decide +kernel, fun body hb => by first | (cases hb; done) | (cases hb; decide +kernel)⟩⟩
+
+end CCVerif.SynthCorrect
+
+/-! ## the semantic clause for the REAL type-checker model, definitions WITH calls (prover-C12i)
+
+`check_hom2` (Lemmas/CheckerHomCalls.lean) is `check_hom` with the rule `ViFunctionCall` /
+`CheckFuncArguments` (template and non-template functions, predicates) added; the exact condition at a call
+(`CallH`, `RadInj`): the callee is identified like with like (equal declared argument types and result up to
+the identification), its mangled radical names follow its name (`MangleOK`: `R1F1 ↦ R1F2` when `F1 ↦ F2`;
+trivial for a signature without radicals), and the identification is injective on radicals — necessary over
+arbitrary contexts: `Checker.CallsExample.call_hom_radInj_needed_counterexample`. Instance
+`checkerHomOn2 traits Fs` (Lemmas/CheckerHomCallsAnalysis.lean): `GoodDC2 Fs` = grammar-shaped, calls
+ALLOWED, called names in `Fs`; `AdmC2 traits Fs` = `AdmC` and the called functions `Fs` are fixed (with
+the base names identified by the SAME map, which fixes every radical, the mangled radical `R1F1` follows
+`F1` exactly when `F1` is fixed). Everything else — terms, base sets, constants, the arguments of the
+calls — is identified freely, not injectively. -/
+namespace CCVerif.SynthCorrect
+open CCVerif.Translation CCVerif.Dedup CCVerif.Merge CCVerif.Equate CCVerif.Synth
+open CCVerif.SchemaGen (entryOf FullyCorrect checkerR checkerEquivariance checkerHomOn2 checkerR_lawful
+  checkerR_contentOnly CDef GoodDC2)
+open CCVerif.Checker (AdmC AdmC2)
+open CCVerif.Types (TraitEnv)
+
+/-- **dedup_correct_checker2**: `dedup_correct_checker` for definitions WITH calls (`GoodDC2 Fs`); the
+identification `finalAlias` fixes the called functions `Fs` -/
+theorem dedup_correct_checker2 (traits : TraitEnv) (Fs : List String) (V : View CDef)
+    (hV : V.CompatibleHomOn (checkerHomOn2 traits Fs)) {l r : Schema} {tr : Tr} (hw : WF l)
+    (h : dedup l = some (r, tr)) (hadm : AdmC2 traits Fs (finalAlias l r tr))
+    (hgood : ∀ c ∈ l, GoodDC2 Fs (V.read c.definition))
+    (hfc : FullyCorrect (checkerR fun _ => traits) (V.store l)) :
+    (∀ c ∈ l, entryOf (checkerR fun _ => traits) (V.store r) (image tr c.uid) =
+      (checkerHomOn2 traits Fs).homI (finalAlias l r tr) (entryOf (checkerR fun _ => traits) (V.store l) c.uid)) ∧
+    FullyCorrect (checkerR fun _ => traits) (V.store r) :=
+  dedup_correct_on (checkerR_lawful _) (checkerR_contentOnly traits) (checkerHomOn2 traits Fs) V hV hw h hadm
+    hgood hfc
+
+/-- **equate_correct_checker2**: `equate_correct_checker` for definitions WITH calls -/
+theorem equate_correct_checker2 (traits : TraitEnv) (Fs : List String) (V : View CDef)
+    (hV : V.CompatibleHomOn (checkerHomOn2 traits Fs)) {semOk : Bool} {l r : Schema} {eqs : List Entry} {tr : Tr}
+    (hw : WF l) (hk : (tkeys eqs).Nodup) (h : equate semOk l eqs = some (r, tr))
+    (hgood : ∀ c ∈ l, GoodDC2 Fs (V.read c.definition))
+    (hfc : FullyCorrect (checkerR fun _ => traits) (V.store l)) :
+    ∃ Q, StageExact l r tr eqs Q ∧ ∀ Q', StageExact l r tr eqs Q' → AdmC2 traits Fs Q' →
+      LikeWithLikeOn V (checkerR fun _ => traits) (checkerHomOn2 traits Fs) l tr Q' →
+      AcyclicSchema V (checkerR fun _ => traits) r →
+      (∀ c ∈ l, entryOf (checkerR fun _ => traits) (V.store r) (image tr c.uid) =
+        (checkerHomOn2 traits Fs).homI Q' (entryOf (checkerR fun _ => traits) (V.store l) c.uid)) ∧
+      FullyCorrect (checkerR fun _ => traits) (V.store r) :=
+  equate_correct_on (checkerR_lawful _) (checkerR_contentOnly traits) (checkerHomOn2 traits Fs) V hV hw hk h
+    hgood hfc
+
+/-- **synth_correct_checker2**: `synth_correct_checker` for definitions WITH calls: the merged schema is
+grammar-shaped with its called names in `Fs`, the final identification `F1` is admissible and fixes `Fs` -/
+theorem synth_correct_checker2 (traits : TraitEnv) (Fs : List String) (V : View CDef)
+    (hV : V.Compatible (checkerR fun _ => traits) (checkerEquivariance fun _ => traits))
+    (hVH : V.CompatibleHomOn (checkerHomOn2 traits Fs))
+    {g : Names} {freshs : List Nat} {semOk : Bool} {op1 op2 res : Schema} {eqs : List Entry} {tr1 tr2 : Tr}
+    (hw1 : WF op1) (hw2 : WF op2) (hk : (tkeys eqs).Nodup)
+    (h : synth g freshs semOk op1 op2 eqs = .ok res tr1 tr2)
+    (hc1 : FullyCorrect (checkerR fun _ => traits) (V.store op1))
+    (hc2 : FullyCorrect (checkerR fun _ => traits) (V.store op2)) :
+    ∃ m trM m1 F1, mergeWith g freshs op1 op2 = some (m, trM) ∧ IsMergeRenaming op2 m trM m1 ∧
+      IsSynthRenaming op1 op2 res tr1 tr2 F1 (fun x => F1 (m1 x)) ∧ (∀ x, x ∉ aliases m → F1 x = x) ∧
+      ∀ r1 : (checkerEquivariance fun _ => traits).Ren,
+        ActsLike V (checkerEquivariance fun _ => traits) r1 m1 op2 → AdmC2 traits Fs F1 →
+        (∀ c ∈ m, GoodDC2 Fs (V.read c.definition)) →
+        (∀ e0 ∈ eqs, (checkerHomOn2 traits Fs).homI F1 (entryOf (checkerR fun _ => traits) (V.store op1) e0.key) =
+          (checkerHomOn2 traits Fs).homI F1 ((checkerEquivariance fun _ => traits).renI r1
+            (entryOf (checkerR fun _ => traits) (V.store op2) e0.value))) →
+        (AcyclicSchema V (checkerR fun _ => traits) res ∨ ∀ e0 ∈ eqs, ∀ k ∈ op1, ∀ v ∈ op2,
+          k.uid = e0.key → v.uid = e0.value → swapNeeded k v = false) →
+        FullyCorrect (checkerR fun _ => traits) (V.store res) ∧
+        (∀ c ∈ op1, ∀ s ∈ res, lookup tr1 c.uid = some s.uid →
+          entryOf (checkerR fun _ => traits) (V.store res) s.uid =
+            (checkerHomOn2 traits Fs).homI F1 (entryOf (checkerR fun _ => traits) (V.store op1) c.uid)) ∧
+        (∀ c ∈ op2, ∀ s ∈ res, lookup tr2 c.uid = some s.uid →
+          entryOf (checkerR fun _ => traits) (V.store res) s.uid =
+            (checkerHomOn2 traits Fs).homI F1 ((checkerEquivariance fun _ => traits).renI r1
+              (entryOf (checkerR fun _ => traits) (V.store op2) c.uid))) :=
+  synth_correct_on (checkerR_lawful _) (checkerR_contentOnly traits) (checkerEquivariance fun _ => traits)
+    (checkerHomOn2 traits Fs) V hV hVH hw1 hw2 hk h hc1 hc2
+
+/-- a schema with a TEMPLATE function and duplicate terms that call it: `X1`, `X2`,
+`F1 := [α∈ℬ(R1)] α`, `D1 := F1[X1] ∪ X1`, `D2 := F1[X1] ∪ X1`, `D3 := D1 ∪ D2` -/
+def dupF : Schema :=
+  [ { uid := 1, alias := "X1", kind := 1, definition := [], rest := [[], [], []] },
+    { uid := 2, alias := "F1", kind := 7, definition := [.sym "[α∈ℬ(R1)] α"], rest := [[], [], []] },
+    { uid := 3, alias := "D1", kind := 6, definition := [.mention "F1", .sym "[", .mention "X1", .sym "]∪", .mention "X1"],
+      rest := [[], [], []] },
+    { uid := 4, alias := "D2", kind := 6, definition := [.mention "F1", .sym "[", .mention "X1", .sym "]∪", .mention "X1"],
+      rest := [[], [], []] },
+    { uid := 5, alias := "D3", kind := 6, definition := [.mention "D1", .sym "∪", .mention "D2"],
+      rest := [[], [], []] } ]
+/-- … after `DeleteDuplicates`: `D2` is erased, `D3 := D1 ∪ D1` -/
+def dupFR : Schema × Tr :=
+  ( [ { uid := 1, alias := "X1", kind := 1, definition := [], rest := [[], [], []] },
+      { uid := 2, alias := "F1", kind := 7, definition := [.sym "[α∈ℬ(R1)] α"], rest := [[], [], []] },
+      { uid := 3, alias := "D1", kind := 6, definition := [.mention "F1", .sym "[", .mention "X1", .sym "]∪", .mention "X1"],
+        rest := [[], [], []] },
+      { uid := 5, alias := "D3", kind := 6, definition := [.mention "D1", .sym "∪", .mention "D1"],
+        rest := [[], [], []] } ],
+    [(4, 3)] )
+
+private theorem finalAlias_off2 (l0 l : Schema) (tr : Tr) (x : String) (hx : x ∉ aliases l0) :
+    finalAlias l0 l tr x = x := by
+  unfold finalAlias
+  have : l0.find? (fun c0 => c0.alias == x) = none := by
+    rw [List.find?_eq_none]
+    intro c hc hcx
+    exact hx (List.mem_map.2 ⟨c, hc, by simpa using hcx⟩)
+  rw [this]
+
+/-- **dedup_correct_checker2 APPLIED** to a schema whose definitions CALL a template function: `dupF` read
+through `callView` (Lemmas/CheckerCallView.lean) is fully correct for the REAL checker model
+(`D1, D2 : ℬ(X1)` by instantiating `R1 := X1`), its definitions are grammar-shaped with the called name `F1`,
+the identification `D2 ↦ D1` is admissible and fixes `F1` — hence the result `dupFR` (`D3 := D1 ∪ D1`) is
+fully correct for the checker model and `D3` keeps its typification `ℬ(X1)` -/
+theorem dedup_correct_checker2_applied :
+    dedup dupF = some dupFR ∧
+    FullyCorrect (checkerR fun _ => []) (callView.store dupFR.1) ∧
+    entryOf (checkerR fun _ => []) (callView.store dupFR.1) 5 =
+      { status := .verified, ty := some (.ty (.coll (.base "X1"))), args := [] } := by
+  have hd : dedup dupF = some dupFR := by decide
+  have h := dedup_correct_checker2 [] ["F1"] callView (callView_compatibleHomOn2 [] ["F1"]) (l := dupF)
+    (by unfold WF; decide) hd
+    ⟨Checker.admC_of_finite [] _ (aliases dupF) (finalAlias_off2 _ _ _) (by decide +kernel), by decide⟩
+    (by
+      intro c hc
+      simp only [dupF, List.mem_cons, List.mem_nil_iff, or_false] at hc
+      rcases hc with rfl | rfl | rfl | rfl | rfl <;>
+        exact ⟨by decide +kernel, fun body hb => by first | (cases hb; done) | (cases hb; decide +kernel)⟩)
+    (by decide +kernel)
+  refine ⟨hd, h.2, ?_⟩
+  have h5 := h.1 dupF[4] (by decide)
+  have e5 : entryOf (checkerR fun _ => []) (callView.store dupF) (dupF[4]).uid =
+      { status := .verified, ty := some (.ty (.coll (.base "X1"))), args := [] } := by decide +kernel
+  rw [e5] at h5
+  exact h5.trans (by decide +kernel)
+
+end CCVerif.SynthCorrect
+
+/-! ## `synth_correct_checker` applied to a closed instance (prover-C12i) -/
+namespace CCVerif.SynthCorrect
+open CCVerif.Translation CCVerif.Dedup CCVerif.Merge CCVerif.Equate CCVerif.Synth
+open CCVerif.SchemaGen (entryOf FullyCorrect checkerR checkerEquivariance checkerHomOn checkerR_lawful
+  checkerR_contentOnly CDef GoodDC)
+open CCVerif.Checker (AdmC)
+open CCVerif.Types (TraitEnv)
+
+/-- the bijection of names of the example: the transpositions `X1 ↔ X2`, `D1 ↔ D2` -/
+private def nbAC : Checker.NameBij :=
+  (Checker.NameBij.swap (old := "X1") (new := "X2") (by decide) (by decide)).comp
+    (Checker.NameBij.swap (old := "D1") (new := "D2") (by decide) (by decide))
+
+private theorem nbAC_f (s : String) : nbAC.b.f s = swapName "X1" "X2" (swapName "D1" "D2" s) := rfl
+
+/-- it fixes every radical -/
+private theorem nbAC_rad (s : String) (hs : Types.isRadical s = true) : nbAC.b.f s = s := by
+  rw [nbAC_f]
+  have h : ∀ x : String, Types.isRadical x = false → s ≠ x := fun x hx e => by
+    rw [e, hx] at hs; cases hs
+  rw [swapName_other (h "D1" (by decide)) (h "D2" (by decide)),
+    swapName_other (h "X1" (by decide)) (h "X2" (by decide))]
+
+/-- the admissible renaming of the checker's equivariance (constant empty traits) -/
+private def renAC : (checkerEquivariance fun _ => []).Ren :=
+  SchemaGen.constRen [] nbAC (fun p hp => by cases hp)
+
+
+/-- on the tokens it is the product of the two transpositions -/
+private theorem renAC_app (s : String) :
+    (checkerEquivariance fun _ => []).app renAC s = swapName "X1" "X2" (swapName "D1" "D2" s) := rfl
+
+/-- … good for the constituents of `opC` (grammar-shaped, aliases single blocks) -/
+private theorem renAC_good : ∀ c ∈ opC, (checkerEquivariance fun _ => []).Good renAC (checkerView.cst c) := by
+  intro c hc
+  simp only [opC, List.mem_cons, List.mem_nil_iff, or_false] at hc
+  rcases hc with rfl | rfl <;>
+    exact SchemaGen.goodC_of_shaped nbAC nbAC_rad (by decide +kernel) (by decide +kernel)
+
+/-- **synth_correct_checker_applied**: `synth_correct_checker` APPLIED to a closed instance, every hypothesis
+discharged: operands `opA`, `opC` (`X1`, `D1 := X1 ∪ X1`) read through `checkerView`, the table `X1 = X1`,
+constant empty traits. The renaming of the checker's equivariance is the `NameBij` of the transpositions
+`X1 ↔ X2`, `D1 ↔ D2` (it acts like THE merge renaming `m1` on the names of `opC`, and is good for its
+constituents because they are grammar-shaped); THE final identification `F1` (`X1, X2 ↦ X1`, `D1, D2 ↦ D1`, by
+`IsSynthRenaming`, identity off the aliases of the merged schema) is admissible (`admC_of_finite`); the merged
+definitions are grammar-shaped without calls; like with like: the entries of the two `X1` are `ℬ(X1)` and
+`ℬ(X2)`, equal after `F1`; acyclicity by the second alternative (the equation is not turned round). Hence
+the result `resAC` (`X1`, `D1 := X1 ∪ X1`) is fully correct for the REAL checker model and `D1` (uid 2) has
+the entry of the operand's `D1` with `F1` applied: verified, `ℬ(X1)`. -/
+theorem synth_correct_checker_applied :
+    FullyCorrect (checkerR fun _ => []) (checkerView.store resAC) ∧
+    entryOf (checkerR fun _ => []) (checkerView.store resAC) 2 =
+      { status := .verified, ty := some (.ty (.coll (.base "X1"))), args := [] } := by
+  obtain ⟨m, trM, m1, F1, hm, hm1, hF, hoff, hmain⟩ := synth_correct_checker [] checkerView
+    (checkerView_compatible []) (checkerView_compatibleHomOn []) (g := realNames)
+    (freshs := [77, 78]) (semOk := true) (op1 := opA) (op2 := opC) (eqs := eqsAC) (res := resAC)
+    (tr1 := [(1, 77), (2, 2)]) (tr2 := [(1, 77), (2, 2)]) (by unfold WF; decide) (by unfold WF; decide)
+    (by decide) (by decide) (by decide +kernel) (by decide +kernel)
+  have e : some (m, trM) = some mergedAC := by rw [← hm]; decide
+  simp only [Option.some.injEq] at e
+  obtain ⟨rfl, rfl⟩ : m = mergedAC.1 ∧ trM = mergedAC.2 := by rw [← e]; exact ⟨rfl, rfl⟩
+  have a1 : m1 "X1" = "X2" := hm1.1 opC[0] (by decide) mergedAC.1[1] (by decide) (by decide)
+  have a2 : m1 "D1" = "D2" := hm1.1 opC[1] (by decide) mergedAC.1[3] (by decide) (by decide)
+  have hr1 : ActsLike checkerView (checkerEquivariance fun _ => []) renAC m1 opC := by
+    refine ⟨fun n hn => ?_, renAC_good⟩
+    have : n = "X1" ∨ n = "D1" ∨ n = "X1" := by
+      simp only [tokNames, opC, aliases, mentionNames] at hn
+      simpa using hn
+    rw [renAC_app]
+    rcases this with rfl | rfl | rfl
+    · exact a1.symm ▸ (by decide)
+    · exact a2.symm ▸ (by decide)
+    · exact a1.symm ▸ (by decide)
+  have f1 : F1 "X1" = "X1" := hF.alias1 opA[0] (by decide) resAC[0] (by decide) (by decide)
+  have f3 : F1 "D1" = "D1" := hF.alias1 opA[1] (by decide) resAC[1] (by decide) (by decide)
+  have f2 : F1 "X2" = "X1" := by
+    have := hF.alias2 opC[0] (by decide) resAC[0] (by decide) (by decide)
+    rw [show opC[0].alias = "X1" from rfl, a1] at this
+    exact this
+  have f4 : F1 "D2" = "D1" := by
+    have := hF.alias2 opC[1] (by decide) resAC[1] (by decide) (by decide)
+    rw [show opC[1].alias = "D1" from rfl, a2] at this
+    exact this
+  have hadm : AdmC [] F1 := by
+    refine Checker.admC_of_finite [] F1 (aliases mergedAC.1) hoff ?_
+    intro x hx
+    have : x = "X1" ∨ x = "X2" ∨ x = "D1" ∨ x = "D2" := by
+      simpa [mergedAC, aliases] using hx
+    rcases this with rfl | rfl | rfl | rfl
+    · rw [f1]; decide
+    · rw [f2]; decide
+    · rw [f3]; decide
+    · rw [f4]; decide
+  have hgood : ∀ c ∈ mergedAC.1, GoodDC (checkerView.read c.definition) := by
+    intro c hc
+    simp only [mergedAC, List.mem_cons, List.mem_nil_iff, or_false] at hc
+    rcases hc with rfl | rfl | rfl | rfl <;>
+      exact ⟨by decide +kernel, fun body hb => by first | (cases hb; done) | (cases hb; decide +kernel)⟩
+  have hlike : ∀ e0 ∈ eqsAC,
+      (checkerHomOn []).homI F1 (entryOf (checkerR fun _ => []) (checkerView.store opA) e0.key) =
+      (checkerHomOn []).homI F1 ((checkerEquivariance fun _ => []).renI renAC
+        (entryOf (checkerR fun _ => []) (checkerView.store opC) e0.value)) := by
+    intro e0 he0
+    have : e0 = { key := 1, value := 1 } := by simpa [eqsAC] using he0
+    subst this
+    have e1 : entryOf (checkerR fun _ => []) (checkerView.store opA) 1 =
+        { status := .verified, ty := some (.ty (.coll (.base "X1"))), args := [] } := by decide +kernel
+    have e2 : (checkerEquivariance fun _ => []).renI renAC
+        (entryOf (checkerR fun _ => []) (checkerView.store opC) 1) =
+        { status := .verified, ty := some (.ty (.coll (.base "X2"))), args := [] } := by decide +kernel
+    rw [e1, e2]
+    show SchemaGen.homIC F1 _ = SchemaGen.homIC F1 _
+    simp only [SchemaGen.homIC, Option.map_some, Types.renE, Types.renTy, f1, f2, List.map_nil]
+  obtain ⟨hfc, hent1, _⟩ := hmain renAC hr1 hadm hgood hlike (Or.inr (by decide))
+  refine ⟨hfc, ?_⟩
+  have := hent1 opA[1] (by decide) resAC[1] (by decide) (by decide)
+  have e3 : entryOf (checkerR fun _ => []) (checkerView.store opA) (opA[1]).uid =
+      { status := .verified, ty := some (.ty (.coll (.base "X1"))), args := [] } := by decide +kernel
+  rw [e3] at this
+  rw [show (resAC[1]).uid = 2 from rfl] at this
+  rw [this]
+  show SchemaGen.homIC F1 _ = _
+  simp only [SchemaGen.homIC, Option.map_some, Types.renE, Types.renTy, f1, List.map_nil]
 
 end CCVerif.SynthCorrect
